@@ -2,7 +2,7 @@
    Statements only.  Model: db/Merge.v (tied to src/db/mod.rs, group.rs, entry.rs by the merge
    correspondence run).  Component-level idempotence is proved here; the tree-level statement
    is carried by the correspondence sweep and listed as partial in the evidence. *)
-From KP Require Import Bytes Outcome Tree TreeFacts History Merge MergeProofs MergeLookup MergeTermination MergeUuids MergeSelf MergePlaceWalk MergeTwice.
+From KP Require Import Bytes Outcome Tree TreeFacts History Merge MergeProofs MergeLookup MergeTermination MergeUuids MergeSelf MergePlaceWalk MergeTwice MergeTwiceDel.
 
 (* a second merge of the same source group changes nothing and reports nothing *)
 Theorem c13_group_merge_idem : forall now d s d' lg,
@@ -85,3 +85,14 @@ Theorem c13_second_merge_example :
    entries_lmb tx_s = true /\ same_group_parentsb tx_d tx_s = true)
   /\ merge 20 tx_d1 tx_s = Ok (tx_d1, []).
 Proof. exact tx_example. Qed.
+
+(* the same with ANY tombstones already present in the destination (db/MergeTwiceDel.v): source nodes
+   the first merge skipped because the destination had deleted them, or that lie below such a group,
+   are skipped again *)
+Theorem c13_second_merge_is_noop_any_tombstones : forall (now : Z) (d s d1 : db) (lg1 : log),
+  uuids_ok d -> uuids_ok s -> gi_uuid (db_root_info d) = gi_uuid (db_root_info s) ->
+  tombs_outside s -> (0 <= now)%Z -> entries_lm s -> same_group_parents d s ->
+  merge now d s = Ok (d1, lg1) ->
+  exists lg2 : log, merge now d1 s = Ok (d1, lg2) /\ is_warns lg2 /\
+                    (forall (t : evtype) (u : N), ~ In (Ev t u) lg2).
+Proof. exact merge_twice_any_tombs. Qed.
